@@ -13,7 +13,8 @@ def _rapid(run, checks, shards=8, steps=30, timeout=600, **kw):
 ASSUME_PURE = [
     "the recording testing.TB stands for a real test: Errorf/Error/Fail record a failure, Fatalf/Fatal/FailNow record one and "
     "end the calling goroutine, Cleanup functions run last-in first-out when the case ends",
-    "every invocation of a double is made sequentially, each in a goroutine of its own (concurrent use of one mock is not explored)",
+    "invocations of a double are made sequentially, each in a goroutine of its own, except in TestC20MockConcurrent, where 2-8 "
+    "goroutines use one mock whose expectations are all identical (the order of arrival then does not matter)",
 ]
 
 C20 = dict(
@@ -41,12 +42,12 @@ C20 = dict(
          "channel must deliver exactly the non-block entries in order (10 s allowance each), then close — or, with a tail, stay "
          "silent and open for 20 ms (plus the scripted delays before an indefinite block). Illegal scripts (nil entry, follow-up "
          "after ErrClosed / wrapped ErrClosed / ExchangeBlock{}, entries with a non-nil errFix) must panic at construction. "
-         "Non-trivial: exactly one differing field (or filter set) with the right call count, or an off-by-one call count with "
+         "TestC20MockConcurrent: publish, subscribe and unsubscribe mocks with N identical expectations used by 2-8 goroutines making 1, 10, 200 or 2000 matching calls each, N = calls + {0, -2..2}: failed <=> N differs from the number of calls, no panic, no error from a matching call. Non-trivial: exactly one differing field (or filter set) with the right call count, or an off-by-one call count with "
          "no differing field, or an exchange script of ≥ 2 entries; stub cases are counted as evaluations only. Distinct = "
          "distinct rendered cases (64-bit FNV-1a).",
     assumptions=ASSUME_PURE,
-    quick=dict(engines=[_rapid('^TestC20Mock', 120000), _rapid('^TestC20Exchange', 4000)]),
-    thorough=dict(engines=[_rapid('^TestC20Mock', 2000000, shards=14, timeout=1200),
+    quick=dict(engines=[_rapid('^TestC20Mock(Publish|Subscribe|ReadSlices|Stubs)', 120000), _rapid('^TestC20Exchange', 4000), _rapid('^TestC20MockConcurrent', 1600, gomaxprocs=8)]),
+    thorough=dict(engines=[_rapid('^TestC20Mock(Publish|Subscribe|ReadSlices|Stubs)', 2000000, shards=14, timeout=1200), _rapid('^TestC20MockConcurrent', 40000, shards=14, gomaxprocs=8, timeout=1200),
                            _rapid('^TestC20Exchange', 70000, shards=14, timeout=1200)]),
 )
 
